@@ -458,6 +458,14 @@ theorem freshS_run {S : Spl} : ∀ (ops : List Op) {o : Incomplete}, FreshS S o 
   | [], _, hf => hf
   | op :: ops, _, hf => freshS_run ops (freshS_step hf op)
 
+theorem freshS_trace {S : Spl} : ∀ (ops : List Op) {o : Incomplete}, FreshS S o → ∀ x ∈ trace S o ops, FreshS S x.1
+  | [], _, _, x, hx => by cases hx
+  | op :: ops, o, hf, x, hx => by
+    simp only [trace, List.mem_cons] at hx
+    rcases hx with rfl | hx
+    · exact freshS_step hf op
+    · exact freshS_trace ops (freshS_step hf op) x hx
+
 /-! ### from the structural to the observational notion; independence of the history -/
 
 theorem mem_of_dlookup {T v : Rat} : ∀ {l : List Pt}, dlookup T l = some v → (T, v) ∈ l
@@ -695,5 +703,191 @@ theorem update_refines {S : Spl} {o : Incomplete} (hf : FreshS S o) (d : Corr) (
       | cons p ps =>
         obtain ⟨_, _, dd, -, hcorr, -, -⟩ := hfr.hascp (by rw [hcp]; simp)
         rw [hcorr, ← f3, hcp]; rfl
+
+/-! ### the translation of reference values inside `update` is the C05 evaluation -/
+
+/-- exception classes of the getters, read as C13's `UErr` -/
+def liftOut : Except Err Rat → Except UErr Rat
+  | .ok v => .ok v
+  | .error .nonfinite => .error .zeroDiv
+  | .error .incomplete => .error .incomplete
+  | .error .assertion => .error .assertion
+  | .error _ => .error .value
+
+/-- what the constructor leaves when there is a table -/
+theorem construct_cons {S : Spl} {c : Corr} {o : Incomplete} (h : construct S c = .ok o) {p : Pt} {ps : List Pt}
+    (hcp : c.cp = p :: ps) :
+    ∃ d, RawData.mk (S (sortPts c.cp)) (c.H.getD 0) (c.S.getD 0) (sortPts c.cp) c.Tref c.range = .ok d ∧
+      o = ⟨c.H, c.S, c.cp, c.Tref, c.range, some d⟩ := by
+  obtain ⟨-, -, -, hs⟩ := construct_ok h
+  simp only [setup, hcp] at hs
+  rw [hcp]
+  cases hmk : RawData.mk (S (sortPts (p :: ps))) (c.H.getD 0) (c.S.getD 0) (sortPts (p :: ps)) c.Tref c.range with
+  | error e => rw [hmk] at hs; simp at hs
+  | ok d =>
+    rw [hmk] at hs
+    simp only [Prod.mk.injEq, and_true] at hs
+    exact ⟨d, rfl, hs.symm⟩
+
+/-- C13's range test of the temporary correlation is the range check of its table correlation -/
+theorem inRange_iff {ip : Interp} {h s : Rat} {cp : List Pt} {Tref : Rat} {range : Option Range} {d : RawData}
+    (hmk : RawData.mk ip h s (sortPts cp) Tref range = .ok d) (hne : cp ≠ []) (T : Rat) :
+    Merge.inRange cp range T = true ↔ d.range.1 ≤ T ∧ T ≤ d.range.2 := by
+  have hb := RawData.mk_built hmk
+  cases range with
+  | some r =>
+    obtain ⟨lo, hi⟩ := r
+    rw [hb.range_some (lo, hi) rfl]
+    simp [Merge.inRange, not_or, not_lt]
+  | none =>
+    rw [hb.range_none rfl]
+    obtain ⟨mn, hmn⟩ := minKey_isSome hne
+    obtain ⟨mx, hmx⟩ := maxKey_isSome hne
+    obtain ⟨mnmem, mnle⟩ := minKey_spec hmn
+    obtain ⟨mxmem, mxle⟩ := maxKey_spec hmx
+    have hmem : ∀ q, q ∈ sortPts cp ↔ q ∈ cp := fun q => (sortPts_perm cp).mem_iff
+    have e1 : mn = d.minT := by
+      apply le_antisymm
+      · exact mnle _ (mem_keys_iff.mpr ⟨_, (hmem _).mp hb.min_mem, rfl⟩)
+      · obtain ⟨q, hq, rfl⟩ := mem_keys_iff.mp mnmem
+        exact hb.min_le q ((hmem q).mpr hq)
+    have e2 : mx = d.maxT := by
+      apply le_antisymm
+      · obtain ⟨q, hq, rfl⟩ := mem_keys_iff.mp mxmem
+        exact hb.le_max q ((hmem q).mpr hq)
+      · exact mxle _ (mem_keys_iff.mpr ⟨_, (hmem _).mp hb.max_mem, rfl⟩)
+    subst e1 e2
+    simp [Merge.inRange, hmn, hmx, not_or, not_lt]
+
+theorem hNum_refs (d : RawData) (s : Rat) (T : Rat) : ({ d with Sref := s } : RawData).hNum T = d.hNum T := rfl
+theorem sVal_refs (d : RawData) (h : Rat) (T : Rat) : ({ d with Href := h } : RawData).sVal T = d.sVal T := rfl
+
+/-- **away from the reference temperature** (and from 0 K) C13's `getH` over `rawEvalOf S` is the C05 getter of the
+constructed correlation -/
+theorem getH_is_thermo {S : Spl} {c : Corr} {o : Incomplete} (hc : construct S c = .ok o) (T : Rat)
+    (h0 : T = 0 → T = c.Tref)
+    (href : T = c.Tref → T ≠ 0 → ∀ d, o.corr = some d → d.HoRT T = .ok d.Href) :
+    Merge.getH (rawEvalOf S) c T = liftOut (o.HoRT T).1 := by
+  cases hcp : c.cp with
+  | nil =>
+    have e := construct_eq S ⟨c.H, c.S, c.cp, c.Tref, c.range, none⟩
+    have hh : held ⟨c.H, c.S, c.cp, c.Tref, c.range, none⟩ = c := rfl
+    obtain ⟨-, -, -, hs⟩ := construct_ok hc
+    simp only [setup, hcp] at hs
+    simp only [Prod.mk.injEq, and_true] at hs
+    subst hs
+    unfold Merge.getH Incomplete.HoRT
+    cases c.H with
+    | none => rfl
+    | some h => simp [hcp, liftOut]
+  | cons p ps =>
+    obtain ⟨cH, cS, ccp, cT, cr⟩ := c
+    simp only at hcp
+    subst hcp
+    obtain ⟨d, hmk, rfl⟩ := construct_cons hc rfl
+    simp only at hmk h0 href
+    have hb := RawData.mk_built hmk
+    have hne : (p :: ps) ≠ [] := by simp
+    have hin := inRange_iff hmk hne T
+    unfold Merge.getH Incomplete.HoRT
+    simp only
+    cases cH with
+    | none => rfl
+    | some h =>
+      simp only [List.isEmpty_cons, Bool.false_eq_true, if_false]
+      by_cases hr : d.range.1 ≤ T ∧ T ≤ d.range.2
+      · rw [if_pos (hin.mpr hr)]
+        have hd : d.HoRT T = if T = 0 then .error .nonfinite else .ok (d.hNum T / T) := by
+          unfold RawData.HoRT
+          rw [checkRange_ok.mpr hr]
+        unfold Merge.evalAt
+        by_cases hT : T = cT
+        · rw [if_pos hT]
+          by_cases hz : T = 0
+          · rw [if_pos hz, hd, if_pos hz]; rfl
+          · rw [if_neg hz, href hT hz d rfl, hb.href]; rfl
+        · rw [if_neg hT]
+          have hz : T ≠ 0 := fun hz => hT (h0 hz)
+          rw [hd, if_neg hz]
+          simp only [rawEvalOf]
+          have := mk_refs (S (sortPts (p :: ps))) ((some h : Option Rat).getD 0) (cS.getD 0) h 0 (sortPts (p :: ps)) cT cr
+          rw [hmk] at this
+          simp only [Except.map] at this
+          rw [this]
+          simp only [convertErr, liftOut]
+          have : ({ d with Href := h, Sref := 0 } : RawData).hNum T = d.hNum T := by
+            have e : d.Href = h := by rw [hb.href]; rfl
+            subst e; rfl
+          rw [this]
+      · have hf : Merge.inRange (p :: ps) cr T = false := by
+          cases hx : Merge.inRange (p :: ps) cr T with
+          | false => rfl
+          | true => exact absurd (hin.mp hx) hr
+        rw [hf]
+        simp only [Bool.false_eq_true, if_false]
+        have : d.HoRT T = .error .outside := by
+          unfold RawData.HoRT
+          rw [checkRange_err hr]
+        rw [this]; rfl
+
+theorem getS_is_thermo {S : Spl} {c : Corr} {o : Incomplete} (hc : construct S c = .ok o) (T : Rat)
+    (href : T = c.Tref → ∀ d, o.corr = some d → d.SoR T = .ok d.Sref ∧ T ≠ 0) :
+    Merge.getS (rawEvalOf S) c T = liftOut (o.SoR T).1 := by
+  cases hcp : c.cp with
+  | nil =>
+    obtain ⟨-, -, -, hs⟩ := construct_ok hc
+    simp only [setup, hcp] at hs
+    simp only [Prod.mk.injEq, and_true] at hs
+    subst hs
+    unfold Merge.getS Incomplete.SoR
+    cases c.S with
+    | none => rfl
+    | some h => simp [hcp, liftOut]
+  | cons p ps =>
+    obtain ⟨cH, cS, ccp, cT, cr⟩ := c
+    simp only at hcp
+    subst hcp
+    obtain ⟨d, hmk, rfl⟩ := construct_cons hc rfl
+    simp only at hmk href
+    have hb := RawData.mk_built hmk
+    have hne : (p :: ps) ≠ [] := by simp
+    have hin := inRange_iff hmk hne T
+    unfold Merge.getS Incomplete.SoR
+    simp only
+    cases cS with
+    | none => rfl
+    | some s =>
+      simp only [List.isEmpty_cons, Bool.false_eq_true, if_false]
+      by_cases hr : d.range.1 ≤ T ∧ T ≤ d.range.2
+      · rw [if_pos (hin.mpr hr)]
+        have hd : d.SoR T = .ok (d.sVal T) := by
+          unfold RawData.SoR
+          rw [checkRange_ok.mpr hr]
+        unfold Merge.evalAt
+        by_cases hT : T = cT
+        · rw [if_pos hT]
+          obtain ⟨h1, hz⟩ := href hT d rfl
+          rw [if_neg hz, h1, hb.sref]; rfl
+        · rw [if_neg hT, hd]
+          simp only [rawEvalOf]
+          have := mk_refs (S (sortPts (p :: ps))) (cH.getD 0) ((some s : Option Rat).getD 0) 0 s (sortPts (p :: ps)) cT cr
+          rw [hmk] at this
+          simp only [Except.map] at this
+          rw [this]
+          simp only [convertErr, liftOut]
+          have : ({ d with Href := 0, Sref := s } : RawData).sVal T = d.sVal T := by
+            have e : d.Sref = s := by rw [hb.sref]; rfl
+            subst e; rfl
+          rw [this]
+      · have hf : Merge.inRange (p :: ps) cr T = false := by
+          cases hx : Merge.inRange (p :: ps) cr T with
+          | false => rfl
+          | true => exact absurd (hin.mp hx) hr
+        rw [hf]
+        simp only [Bool.false_eq_true, if_false]
+        have : d.SoR T = .error .outside := by
+          unfold RawData.SoR
+          rw [checkRange_err hr]
+        rw [this]; rfl
 
 end PGA.CorrHistory
